@@ -82,9 +82,9 @@ type sizes struct{ det, conc, cold, docsPerDet, concDocs, rounds int }
 
 func sz(tier string) sizes {
 	if tier == "thorough" {
-		return sizes{det: 1200, conc: 120, cold: 800, docsPerDet: 4, concDocs: 8, rounds: 12}
+		return sizes{det: 1000, conc: 100, cold: 600, docsPerDet: 4, concDocs: 8, rounds: 12}
 	}
-	return sizes{det: 60, conc: 16, cold: 48, docsPerDet: 4, concDocs: 8, rounds: 5}
+	return sizes{det: 40, conc: 10, cold: 40, docsPerDet: 4, concDocs: 8, rounds: 4}
 }
 
 // seed of the run: Gen only receives the per-case generator, and the mirror of case i must rebuild
